@@ -3,7 +3,7 @@
 From Verif Require Import Base.Tactics Base.ZList Base.Val.
 From Verif Require Import Base.Str.
 From Verif Require Import Model.BufReaderModel Model.RangeModel Model.IsoTimeModel Model.TimingModel Model.SegModel.
-From Verif Require Import Base.Bits Model.CrcModel Model.EventsModel Model.Scte35Model Model.MpsModel Model.AuthModel Model.OptionsModel Model.BoxModel Model.FragModel Model.DrmModel Model.ErrModel Model.OptErrModel Model.XmlModel Model.StoreModel Model.ValidatorModel.
+From Verif Require Import Base.Bits Model.CrcModel Model.EventsModel Model.Scte35Model Model.MpsModel Model.AuthModel Model.OptionsModel Model.BoxModel Model.FragModel Model.DrmModel Model.ErrModel Model.OptErrModel Model.XmlModel Model.StoreModel Model.ValidatorModel Model.UserModel.
 From Verif Require Model.FieldModel.
 
 (* ---- C20 ---- request: (file off bs maxb (size?) mode ops) *)
@@ -234,7 +234,22 @@ Fixpoint c15_flags (mac : list Z -> list Z) (used : list (list Z)) (calls : list
   | [] => []
   | (c, s, t) :: rest => let '(used', ok) := check mac used c s t in vbool ok :: c15_flags mac used' rest
   end.
+(* (9 (name must email pw groups) (admin caller target name must email (pw)? confirm groups)) -> (0) refused, (1) passwords
+   differ, (2 name must email pw groups) committed *)
+Definition c15_user (v : val) : val :=
+  let a := vnth 1 v in let b := vnth 2 v in
+  let u := {| u_name := vint (vnth 0 a); u_must := 0 <? vint (vnth 1 a); u_email := vint (vnth 2 a); u_pw := vint (vnth 3 a);
+              u_groups := vint (vnth 4 a) |} in
+  let q := {| q_admin := 0 <? vint (vnth 0 b); q_caller := vint (vnth 1 b); q_target := vint (vnth 2 b); q_name := vint (vnth 3 b);
+              q_must := 0 <? vint (vnth 4 b); q_email := vint (vnth 5 b); q_pw := as_opt_int (vnth 6 b); q_confirm := vint (vnth 7 b);
+              q_groups := vint (vnth 8 b) |} in
+  match edit_user u q with
+  | URefused => VL [VI 0]
+  | UMismatch => VL [VI 1]
+  | UDone x => VL [VI 2; VI (u_name x); vbool (u_must x); VI (u_email x); VI (u_pw x); VI (u_groups x)]
+  end.
 Definition c15_run (v : val) : val :=
+  if vint (vnth 0 v) =? 9 then c15_user v else
   let tbl := map (fun e => (vints (vnth 0 e), vints (vnth 1 e))) (vlist (vnth 1 v)) in
   let calls := map (fun e => (match vnth 0 e with VL [VL c] => Some (map vint c) | _ => None end,
                               vints (vnth 1 e), vints (vnth 2 e))) (vlist (vnth 2 v)) in
